@@ -228,6 +228,9 @@ void h18p1(void) {
     const unsigned prior = PRIORMAX;
     u_int64_t pb = (u_int64_t)prior * 512;
     for(size_t s = 0; s <= L; s++) {
+        /* SHA1_Final pads one byte per SHA1_Update call, which makes every split point cost ~70 calls of symbolic execution:
+         * only the split points at the ends, in the middle and around the block edge are taken here */
+        if(!(s <= 1 || s + 1 >= L || s == L / 2 || (s >= 63 && s <= 65))) continue;
         SHA_CTX c;
         nlg = 0; lg_over = 0;
         SHA1_Init(&c);
@@ -243,5 +246,16 @@ void h18p1(void) {
             OBLIGE(dg[i] == (unsigned char)(chain_last[i / 4] >> (8 * (3 - i % 4))), "C18/digest-is-big-endian-chaining-value");
     }
     WITNESS("h18p-end");
+}
+#endif
+
+#ifdef H_h18k
+/* constant tables of sha2.c equal the FIPS 180-4 values computed independently */
+extern uint32 sha256_h0[8], sha256_k[64]; extern uint64 sha512_h0[8], sha512_k[80];
+void h18k(void) {
+    for(int i = 0; i < 64; i++) OBLIGE(sha256_k[i] == REF_K256[i], "C18/sha256-round-constants");
+    for(int i = 0; i < 80; i++) OBLIGE(sha512_k[i] == REF_K512[i], "C18/sha512-round-constants");
+    for(int i = 0; i < 8; i++) OBLIGE(sha256_h0[i] == REF_H256[i] && sha512_h0[i] == REF_H512[i], "C18/initial-hash-values");
+    WITNESS("h18k-end");
 }
 #endif
